@@ -192,7 +192,14 @@ pub fn termchild(opts: &Opts) -> i32 {
                         let _ = beat.call(t, "flush", || store.flush());
                     }
                     10 if ttl => {
-                        let _ = beat.call(t, "insert_with_ttl", || store.insert_with_ttl(&k, &v, 1));
+                        if rng.chance(1, 2) {
+                            let _ = beat.call(t, "insert_with_ttl", || store.insert_with_ttl(&k, &v, 1));
+                        } else {
+                            // expired on arrival (expiry in 1970) and, without a sweeper, never removed: every later
+                            // range query over the key space walks across it
+                            let ek = format!("tk-e{}", rng.below(4)).into_bytes();
+                            let _ = beat.call(t, "insert_expired", || store.insert_with_ttl_and_timestamp(&ek, b"gone", 1, Some(2000)));
+                        }
                     }
                     _ => {
                         let _ = beat.call(t, "atomic_increment", || store.atomic_increment(b"tk-counter", 1));
